@@ -160,7 +160,7 @@ def _convolve_model_dir_2(model_dir, filters, overwrite=False, memmap=True):
     for i_ap in ProgressBar(range(sed_cube.n_ap)):
 
         sed_val = sed_cube.val[:, i_ap, :]
-        sed_unc = sed_cube.val[:, i_ap, :]
+        sed_unc = sed_cube.unc[:, i_ap, :]
 
         for i, f in enumerate(binned_filters):
 
